@@ -1,0 +1,30 @@
+//go:build verif
+
+// Contracts for govc (contract-based deductive verification, see /verif/DESIGN.md).
+// Comment-only file: it adds no code and is compiled only with -tags verif.
+
+package tempo
+
+// Tag search over the trace attribute index: the index rows are dated by the UTC
+// day of the span. The date bounds of the read must cover the requested window
+// [FromNS, ToNS] whatever zone the process runs in: the lower bound is not later
+// than the UTC day of the window start, the upper bound not earlier than the UTC
+// day of the window end.
+//@ func (*SQLIndexQuery).String [C13]
+//@   flag checks=-index,-assert
+//@   at sql_select.Ge lower-date-covers-window-start: typeis(arg0, "*sql.RawObject") && unbox(arg0, "*sql.RawObject").val == "date" ==> fmtDay <= fdiv(s.FromNS, 86400000000000)
+//@   at sql_select.Le upper-date-covers-window-end: typeis(arg0, "*sql.RawObject") && unbox(arg0, "*sql.RawObject").val == "date" ==> fmtDay >= fdiv(s.ToNS, 86400000000000)
+//@   replay:
+//@     import "strings"
+//@     import "time"
+//@     import sql "github.com/metrico/qryn/reader/utils/sql_select"
+//@     go: saved := time.Local
+//@     go: defer func() { time.Local = saved }()
+//@     go: time.Local = time.FixedZone("WEST-8", -8*3600)
+//@     go: from := time.Date(2024, 3, 9, 23, 30, 0, 0, time.UTC).UnixNano()
+//@     go: to := time.Date(2024, 3, 10, 1, 30, 0, 0, time.UTC).UnixNano()
+//@     go: q := &SQLIndexQuery{Tags: "a=b", FromNS: from, ToNS: to, Database: "qryn"}
+//@     go: text, err := q.String(&sql.Ctx{Params: map[string]sql.SQLObject{}, Result: map[string]sql.SQLObject{}})
+//@     go: if err != nil { panic(err) }
+//@     go: if !strings.Contains(text, "(date) <= (toDate('2024-03-10'))") { confirm("process zone UTC-8, window 2024-03-09T23:30Z .. 2024-03-10T01:30Z: the tag search does not read index rows dated 2024-03-10: " + text) }
+//@   end
